@@ -147,6 +147,7 @@ public:
 
 private:
 	void _ensure_capacity(size_t capacity);
+	void _relocate(T *new_array, size_t new_capacity);
 
 	Allocator _allocator;
 	T *_elements;
@@ -167,24 +168,27 @@ vector<T, Allocator>::~vector() {
 
 template<typename T, typename Allocator>
 T &vector<T, Allocator>::push(const T &element) {
-	_ensure_capacity(_size + 1);
-	T *pointer = new (&_elements[_size]) T(element);
-	_size++;
-	return *pointer;
+	return emplace_back(element);
 }
 
 template<typename T, typename Allocator>
 T &vector<T, Allocator>::push(T &&element) {
-	_ensure_capacity(_size + 1);
-	T *pointer = new (&_elements[_size]) T(std::move(element));
-	_size++;
-	return *pointer;
+	return emplace_back(std::move(element));
 }
 
 template<typename T, typename Allocator>
 template<typename... Args>
 T &vector<T, Allocator>::emplace_back(Args &&... args) {
-	_ensure_capacity(_size + 1);
+	if(_size + 1 > _capacity) {
+		// The arguments may refer to elements of this vector (e.g., v.push(v[0])).
+		// Hence, construct the new element before the old array is released.
+		size_t new_capacity = (_size + 1) * 2;
+		T *new_array = (T *)_allocator.allocate(sizeof(T) * new_capacity);
+		T *pointer = new(&new_array[_size]) T(std::forward<Args>(args)...);
+		_relocate(new_array, new_capacity);
+		_size++;
+		return *pointer;
+	}
 	T *pointer = new(&_elements[_size]) T(std::forward<Args>(args)...);
 	_size++;
 	return *pointer;
@@ -193,7 +197,16 @@ T &vector<T, Allocator>::emplace_back(Args &&... args) {
 template<typename T, typename Allocator>
 template<typename... Args>
 void vector<T, Allocator>::resize(size_t new_size, Args &&... args) {
-	_ensure_capacity(new_size);
+	if(new_size > _capacity) {
+		// As in emplace_back(): the arguments may refer to elements of this vector.
+		size_t new_capacity = new_size * 2;
+		T *new_array = (T *)_allocator.allocate(sizeof(T) * new_capacity);
+		for(size_t i = _size; i < new_size; i++)
+			new (&new_array[i]) T(std::forward<Args>(args)...);
+		_relocate(new_array, new_capacity);
+		_size = new_size;
+		return;
+	}
 	if(new_size < _size) {
 		for(size_t i = new_size; i < _size; i++)
 			_elements[i].~T();
@@ -211,6 +224,11 @@ void vector<T, Allocator>::_ensure_capacity(size_t capacity) {
 
 	size_t new_capacity = capacity * 2;
 	T *new_array = (T *)_allocator.allocate(sizeof(T) * new_capacity);
+	_relocate(new_array, new_capacity);
+}
+
+template<typename T, typename Allocator>
+void vector<T, Allocator>::_relocate(T *new_array, size_t new_capacity) {
 	for(size_t i = 0; i < _size; i++)
 		new (&new_array[i]) T(std::move(_elements[i]));
 
